@@ -224,6 +224,7 @@ pub fn run_trackers(env: &Env, rep: &Report) {
 }
 
 pub fn run(env: &Env, rep: &Report) {
+    stall_watchdog(400);
     rep.set_rule("constraint tables enumerated exhaustively over <=3 configured gaps in 0..8 x limit grid, duplicates and insertion orders; every (gap 0..10, distance probe) pair compared with the reference lookup 'limit of the smallest configured gap >= d, first insertion wins'. Tracker level: histories with fast-moving and re-appearing objects under random constraint tables for all four trackers. Non-trivial: a probe gap strictly between two configured gaps (tables); a history where the constraints remove a pair that the positional gate would have accepted (binding); a compared prefix with continuations (nonbinding); distinct = distinct serialized case");
     run_tables(env, rep);
     rep.assume("tracker level: 'binding' re-derives admissibility of every (detection, track) pair in f64 (epoch gap, centre distance / sqrt((r1+r2)^2 + EPS) <= limit of the smallest configured gap >= d) and requires every continuation to be an admitted, gated pair and the positional continuations to be optimal among admitted pairs; 'nonbinding' compares the run without constraints with the run under the same gaps and limits 1e6, bit-equal up to ids, cut at calls with a decision margin below 1e-4");
